@@ -359,17 +359,44 @@ def c05(tier):
             hist_gen('histories8-simulated', 8, 'all', timeout=300, simulate=100000000, depth=10, max_cases=400000)]
 
 
+def c19_long(n_quick, n_thorough):
+    """Parse histories of up to 10 calls: TLC prints the demanded outcome of every pool entry, the harness composes random
+    sequences of them (the demanded outcome of a call does not depend on the calls before it -- that is the property)"""
+    def fn(pid, tier, sdir, harness, known):
+        vlib.write_parse_pool(sdir, 'thorough')
+        st = vlib.run_tlc_only(sdir, 'Gen_ParseHist', dict(PoolFile='pool.ndjson', MaxCalls=1), ['LawDocumented', 'Emit'], 900, 'parse-pool-outcomes')
+        if st['rc'] != 0 or st['error'] or not st['finished']:
+            raise Infra('Gen_ParseHist (pool outcomes) failed: %s' % (st['error'] or ''))
+        out = os.path.join(sdir, 'long.sum.json')
+        g = subprocess.Popen([harness, 'compose-hist', '-in', st['log'], '-seed', str(vlib.SEED), '-n', str(n_quick if tier == 'quick' else n_thorough), '-len', '10'],
+                             stdout=subprocess.PIPE, cwd=sdir)
+        h = subprocess.Popen([harness, 'run', '-props', 'C19', '-out', out, '-crashprop', 'C19'], stdin=g.stdout, cwd=sdir)
+        g.stdout.close()
+        h.wait()
+        if g.wait() != 0 or h.returncode != 0:
+            raise Infra('compose-hist pipeline failed')
+        summ = json.load(open(out))
+        if summ.get('infra'):
+            raise Infra('harness reported: %s' % summ['infra'][:3])
+        viol, hits = [], []
+        for v in summ.get('violations') or []:
+            if v['property'] == pid:
+                k = vlib.match_known(v, known)
+                (hits if k else viol).append((k, v) if k else v)
+        return dict(tlc_runs=[{k: st[k] for k in ('label', 'cmd', 'generated', 'distinct', 'wall_s')}], cases=summ['cases'], distinct=summ['distinct_nontrivial'],
+                    counters=summ['counters'], samples=(summ.get('samples') or [])[:1], violations=viol, known_hits=hits, exhaustive=False)
+    return dict(kind='custom', fn=fn)
+
+
 def c19(tier):
     def ph(label, calls, size, timeout=1800, **kw):
         return dict(kind='gen', module='Gen_ParseHist', label=label, props='C19', timeout=timeout, check_count=False, **kw,
                     prepare=lambda sdir: vlib.write_parse_pool(sdir, size),
                     constants=dict(PoolFile='pool.ndjson', MaxCalls=calls), invariants=['LawDocumented', 'Emit'])
     if tier == 'quick':
-        return [conc_model('sequential', 1, 'P1'), ph('parse-histories3', 3, 'quick'),
-                ph('parse-histories10-simulated', 10, 'thorough', timeout=10, simulate=1000000, depth=12, max_cases=6000, workers=1)]
+        return [conc_model('sequential', 1, 'P1'), ph('parse-histories3', 3, 'quick'), c19_long(3000, 200000)]
     return [conc_model('sequential', 1, 'P1'), conc_mutants([('ResetParser', 1, 'P1', 'ResidueFree')]),
-            ph('parse-histories3-large-pool', 3, 'thorough', 7200), ph('parse-histories4', 4, 'quick', 14400),
-            ph('parse-histories10-simulated', 10, 'thorough', timeout=300, simulate=100000000, depth=12, max_cases=300000, workers=1)]
+            ph('parse-histories3-large-pool', 3, 'thorough', 7200), ph('parse-histories4', 4, 'quick', 14400), c19_long(3000, 200000)]
 
 
 def c06_sched():
